@@ -2,18 +2,21 @@
 (* Trace judge for C10 (code -> spec).  Reads a JSON list of traces; a trace is
    [ev |-> <<event, ...>>], an event is one call of a public function of falcon.uri
    recorded at its return:
-     [fn, s, plus, out, out2, port, err, alt, alt0]
+     [fn, s, plus, out, out2, port, err, alt, alt0, back, backp]
        s     input text (code points)        out   returned text (code points; parse_host: host)
        plus  decode's unquote_plus           out2  check-escaped encoders: fn(out); else <<>>
        port  parse_host: port, -1 for "the default was returned"
        err   TRUE iff the call raised (out is then <<>>)
        alt   parse_host: the host returned for s followed by ":8042" (<<-1>> if that call raised); else <<>>
+       back, backp  encode / encode_value: what the code's own decode() makes of the encoder's output, without
+             and (values only; for encode backp = back) with plus translation; <<-1>> if decode raised; else <<>>
        alt0  parse_host: the host returned for s followed by ":" (an empty port), likewise
    Total: every event is consumed; the first failing clause is recorded.
      P:total       the call raised
      P:decode      decode(s) is not the reference reading
      P:alphabet    an encoder produced something outside allowed characters + upper-case %XX
-     P:roundtrip   decoding the encoder's output does not give the input back
+     P:roundtrip   decoding the encoder's output (reference decoder) does not give the input back
+     P:decode_encode  the code's decode() of the code's (correct) encoding is not the input (both ends in the code)
      P:ce_fixpoint an already fully escaped input was changed
      P:ce_alphabet a check-escaped encoder's output is not fully escaped
      P:ce_idem     applying a check-escaped encoder twice differs from once
@@ -37,7 +40,7 @@ TInit == tid \in 1..Len(Traces) /\ l = 1 /\ verdict = "ok"
 
 JudgeEnc(e, allowed) ==
     LET x == Encode(e.s, allowed) IN
-    IF e.out = x THEN "ok"
+    IF e.out = x THEN (IF e.back # e.s \/ e.backp # e.s THEN "P:decode_encode" ELSE "ok")
     ELSE IF ~StrictEscaped(e.out, allowed) THEN "P:alphabet"
     ELSE IF Decode(e.out, FALSE) # e.s THEN "P:roundtrip"
     ELSE "D:encode_exact"
